@@ -69,8 +69,12 @@ class Gen:
                 if k < 0.55 or depth >= 3:
                     out.append(['assign', r.choice(self.vars), self.val(progs)])
                 elif k < 0.97:
-                    v = r.choice(self.vars)
+                    outer = getattr(self, '_outer', [])
+                    # a nested LOOP often has the same bound variable as the loop around it
+                    v = outer[-1] if outer and r.random() < 0.4 else r.choice(self.vars)
+                    self._outer = outer + [v]
                     body = self.stmts(progs, labels, depth + 1, r.randint(1, 3))
+                    self._outer = outer
                     if r.random() < 0.5:
                         body.insert(r.randrange(len(body) + 1), ['assign', v, r.choice([('num', 0), ('inc', v, 1), ('inc', v, 2), ('dec', v, 1), ('num', 7)])])
                     out.append(['loop', v, body])
@@ -143,6 +147,9 @@ class Gen:
             defs.append((name, params, out, b))
             progs = [p for p in progs if p[0] != name] + [(name, params or [])]
         main = self.body(list(progs), r.randint(*self.stmts_rng))
+        if self.looponly:
+            # bounds that are not zero: every variable starts with a small positive value
+            main = [['assign', v, ('num', r.randint(1, 3))] for v in self.vars if r.random() < 0.8] + main
         return number(defs, main)
 
 
